@@ -12,8 +12,10 @@ import (
 // TraceAvailable reports whether this build carries the source-level leakage tracer.
 const TraceAvailable = true
 
-// exemptFuncs: validity decisions of decoders (the property exempts them).
-var exemptFuncs = map[string]bool{"isReduced": true}
+// exemptFuncs: no code is exempt by name. Decoder validity decisions are handled by comparing
+// within one accept class and, for SetCanonicalBytes, within the class of inputs on which the
+// comparison with l decides at its first step (see ctops.go).
+var exemptFuncs = map[string]bool{}
 
 func traceOf(op *ctOp, in *ctInputs) []verifct.Event {
 	in.EnsureOuts()
